@@ -400,6 +400,14 @@ class Hist:
         elif k == "edit":                        # in-place edit of the SRF's model
             setattr(self.srf.model, op["attr"], op["value"])
             self.desc[op["attr"]] = op["value"]
+        elif k == "aniso-detour":                # per-axis length scales make the model anisotropic, it is USED, a list makes it isotropic again
+            m = self.srf.model
+            ls = float(m.len_scale)
+            m.len_scale = [ls * f for f in op["factors"][:self.dim]]
+            probe = np.ones((self.dim, 2)) * 0.37
+            m.isometrize(probe)
+            m.cov_spatial(probe)
+            m.len_scale = [ls] * self.dim
         elif k == "call-seed":                   # SRF.__call__ with a seed
             self.srf(np.zeros((self.dim, 1)), seed=seed)
             self.seed = seed
@@ -478,6 +486,8 @@ def random_op(rng, h):
              + ["gen.mode_no"] * 2 + ["gen.mean_u"] * 2 + ["gen.reset_seed"] + ["gen.update"] * 3)
     if srf:
         kinds += ["edit-dim"] * 3 + ["edit-param"] * 2 + ["call-seed"] * 2 + ["set_generator"]
+        if not h.desc["model"].startswith("TPL"):     # (TPL models: len_scale assignments move the public variance, C14's subject)
+            kinds += ["aniso-detour"] * 2
     k = str(rng.choice(kinds))
     if k == "replace-dim":
         return dict(k="replace", desc=other_dim_desc(h.desc))
@@ -493,6 +503,8 @@ def random_op(rng, h):
     if k == "edit-param":
         a, v = changed_param(rng, h.desc, inplace=True)
         return dict(k="edit", attr=a, value=v)
+    if k == "aniso-detour":
+        return dict(k="aniso-detour", factors=[1.0, float(rng.choice([0.25, 3.0])), float(rng.choice([0.5, 2.0]))])
     if k == "call-seed":
         return dict(k="call-seed", seed=new_seed())
     if k == "gen.seed":
